@@ -624,13 +624,26 @@ Proof. unfold eps14. rewrite Rabs_right; lra. Qed.
 
 (* ------------------------------------------------------------------ roots: the whole comprehension *)
 Lemma roots_list (t : R) (n : nat) :
-  List.length (m_roots_angles R RO t n) = n /\ m_root_radius_normalized R RO = 1 /\
+  List.length (m_roots_angles R RO t n) = n /\
   forall th, In th (m_roots_angles R RO t n) -> cpow (cos th, sin th) n = (cos t, sin t).
 Proof.
-  unfold m_roots_angles. split; [now rewrite map_length, seq_length|]. split; [reflexivity|].
+  unfold m_roots_angles. split; [now rewrite map_length, seq_length|].
   intros th H. apply in_map_iff in H as [k [<- Hk]]. apply in_seq in Hk.
   cbn [oZ RO Rops]. rewrite <- !INR_IZR_INZ.
   apply (roots_power t n k). lia.
+Qed.
+(* the modulus of the returned roots: 1 when normalize, else |c| ** (1/n), whose n-th power is |c| *)
+Lemma roots_radius (r : R) (n : nat) : 0 < r -> (0 < n)%nat ->
+  m_root_radius R RO true r (INR n) = 1 /\
+  0 < m_root_radius R RO false r (INR n) /\ (m_root_radius R RO false r (INR n)) ^ n = r /\
+  dflt_m_roots_normalize R RO = true.
+Proof.
+  intros Hr Hn. unfold m_root_radius. cbn [opow odiv oZ RO Rops].
+  assert (P : 0 < Rpower r (1 / INR n)) by (unfold Rpower; apply exp_pos).
+  assert (N : INR n <> 0) by (apply not_0_INR; lia).
+  repeat split; auto.
+  rewrite <- Rpower_pow by exact P. rewrite Rpower_mult.
+  replace (1 / INR n * INR n) with 1 by (field; exact N). apply Rpower_1. exact Hr.
 Qed.
 
 (* ------------------------------------------------------------------ degenerate inputs *)
